@@ -39,6 +39,11 @@ CHECKS = {
   technique="deterministic simulation of call histories on a pool of shared operands: seeded programs over a registry of call forms, deep snapshot of every pool member and of the global RNG states compared after every step, minimised replayable traces",
   text="Seeded search over programs of 2-8 calls drawn from a registry of ~45 call forms documented to return a new object, on a pool of shared images, arrays and caller-owned containers; results join the pool. After every step all pool members (arguments and bystanders) and the numpy / Python global RNG states must equal their pre-step snapshots, and image arithmetic must equal the numpy expression on the raw arrays. Sampling over inputs and programs; no fault or time dimension exists for this property.",
   note="Trusted: the snapshot function (engines/c17_no_mutation.py: snap) reaches all state of an operand through __dict__, list/tuple/dict items and array bytes; calls that raise claim nothing; reset_origin is documented to modify its receiver."),
+ "C18": dict(
+  engine="c18_storage", category="exploration", design_ref="DESIGN.md §5.5",
+  technique="deterministic simulation with fault injection: seeded save/read programs on a scratch directory behind a storage seam (injected OSErrors at the n-th open/write/flush/close/read/mkdir), process restarts between segments (forked pristine processes), in-memory path model with acknowledged / indeterminate states",
+  text="Seeded search over programs of saves, reads, byte-string decodes, optical writes and correction save/reload on one directory, with injected I/O errors inside operations and process restarts between them; every save that returned normally must read back (in the same or a restarted process) to identical pixel data, dtype and metadata, decoded byte strings must give the original array in RGB order with the matching image kind, lossless optical write/read must return the same colours with ImageMagick absent or present, and a reloaded correction must produce the output recorded before saving. Sampling, not proof.",
+  note="Trusted: the storage seam sees every Python-level file access of np.savez/np.load (zipfile) but not OpenCV's C-level imwrite/imread, which run fault-free; a save that raised promises nothing; class of the reloaded image is not compared; OpenCV's RNG is seeded before every correction application."),
  "C03": dict(
   engine="c03_geometry", category="exploration", design_ref="DESIGN.md §5.1",
   technique="deterministic simulation: seeded interleaving of client programs on shared caching Geometry objects, injected resize failures and environment perturbations, per-step fresh-clone and reference-model oracles",
